@@ -71,8 +71,9 @@ CHECKS["C01"] = dict(
          "log unchanged. 26 configurations x value kinds.",
     design_ref="DESIGN.md section 4 C01", technique="symbolic interpretation of the C source (clang AST) and of the Python code with z3; counterexamples replayed on the compiled extension",
     note="Trusted: z3, API contracts, Dom_T reference predicates (props/c01.py). trait_set and constructor-keyword entry points are exercised "
-         "only in the concrete witness replays (they reach the same has_traits_setattro). Outside: Array traits (numpy C boundary), "
-         "Date/Time/UUID/File, symbolic strings, allocation failure.")
+         "only in the concrete witness replays (they reach the same has_traits_setattro). Array traits: dtypes and casting rules are "
+         "enumerated (numpy is a C boundary; can_cast on concrete dtypes is the reference), dimensions <= 32, <= 3 dimensions. Outside: "
+         "Date/Time/UUID/File, symbolic strings beyond the stated configurations, allocation failure.")
 CHECKS["C18"] = dict(
     engine="csym",
     text="Per-function bounded model checking of ctraits.c from clang's AST, NOT the dynamic reading of the property (arbitrary API programs "
@@ -325,6 +326,50 @@ ADDED3 = {
     "C19": " Round 3: default method failing inside an assignment, observer filter failing at its k-th call during removal.",
     "C20": " Round 3: run-time added list traits with a bystander, rejected quiet updates followed by ordinary traffic.",
 }
+ADDED4 = {
+    "C01": " Round 4: Array / CArray / ArrayOrNone (dtype and shape: the real AbstractArray constructor and validate on SYMBOLIC shape "
+           "specifications and arrays with symbolic shapes - an ndarray subclass reporting z3 Int dimensions; dtypes x casting rules go "
+           "through numpy on concrete dtypes), the governing definition reached by other routes (two-hop deferral with a renaming first hop, "
+           "an inherited long wildcard under a shorter one, a validated Property whose setter a subclass overrides, a re-declared default), "
+           "Trait(float) / Trait(complex) coercion.",
+    "C02": " Round 4: deferral onto Event traits (DelegatesTo / PrototypedFrom, listenable or not), ONE CTrait object declared for several "
+           "attributes and another class, each with its own static handlers.",
+    "C03": " Round 4: Trait(float) / Trait(complex) / Trait(str) (TraitCoerceType: both implementations coerce and use instance checks).",
+    "C04": " Round 4: container traits as alternatives of Union / Either, CList / CSet, nested containers of classes named by forward reference.",
+    "C05": " Round 4: owner-backed extended slices selecting >= 2 items (n = 3) with the slice model visible to the observation event "
+           "factories, a third observe handler registered through a metadata filter before the value exists, equal container re-assigned, "
+           "validators rejecting with a bare TraitError, containers added over a name that held another container kind, containers that "
+           "outlive their place in the owner (remove_trait / re-assignment / reset / owner collected).",
+    "C06": " Round 4: as C05 for Dict (filtered third observer, bare TraitError, added-over, detached containers); any exception class other "
+           "than the built-in's / TraitError is a violation.",
+    "C07": " Round 4: as C05 for Set; members that are sets hashable by identity.",
+    "C08": " Round 4: a Dict value replaced under its key by an equal-but-distinct object, wildcard-governed names (also underscore "
+           "prefixes) that hold a value when the handler is registered.",
+    "C09": " Round 4: value-equal dict values in the histories, collectability after a failing notification, names a wildcard will govern "
+           "registered beforehand (trait(name, optional), '*') and removed again.",
+    "C10": " Round 4: isolation of wildcard-governed names across instances (five registration forms), custom trait types / Trait(x, dict) "
+           "whose inferred default is an instance of a dict / list subclass.",
+    "C11": " Round 4: target attributes holding List / Dict / Set (items events under the deferring name; deferring names shorter than, as "
+           "long as, longer than the target name), deferrals declared with listenable=False.",
+    "C12": " Round 4: one update() naming a new key twice, a cached base getter called by a plain override, a metadata filter one level down "
+           "with component traits added before / after hook-up.",
+    "C13": " Round 4: undeclared __xxx__ names on all three class kinds (has_traits_setattro interpreted, constructor keyword), companion "
+           "names of added container / mapped traits after remove_trait.",
+    "C14": " Round 4: transient containers with declared observers created while the state is applied, attributes derived from ONE reusable "
+           "definition, Expression (mapped shadow is a code object).",
+    "C15": " Round 4: '*' semantics at the notification level (names like items events, underscore names, traits added later), a connector "
+           "after '+name' (defaults created later, equal objects assigned later).",
+    "C16": " Round 4: final attributes selected by metadata ('child:+mtag': true / false / undefined), containers in terminal position "
+           "changed in place, exceptions from graph mutations are violations.",
+    "C17": " Round 4: default METHODS returning objects that need adapting, the module-level adapt / supports_protocol entry points against "
+           "the manager's methods.",
+    "C18": " Round 4: hand-written fast-validation descriptor shapes (every loop of validate_trait_coerce_type), objects handed back without "
+           "any reference operation, failure atomicity of every method-table function (a call that raises leaves the record as it was).",
+    "C19": " Round 4: removal of a two-graph expression failing in the second graph, observe's default exception handler with unprintable events.",
+    "C20": " Round 4: synchronised Expression traits (the trait stores the original text, validation yields a code object).",
+}
+for _k, _v in ADDED4.items():
+    ADDED3[_k] = ADDED3.get(_k, "") + _v
 for _k, _v in ADDED3.items():
     ADDED[_k] = ADDED.get(_k, "") + _v
 for _k, _v in ADDED.items():
